@@ -155,12 +155,15 @@ package parser
 //@   ensures isField(result)
 
 //@ func (*PacketDslVisitorImpl).VisitMatchFieldDeclaration
+//@   ensures [C12:D5-duplicate-key] forall(i, 0, len(unbox(unbox(result, *model.Field).Attr, *model.MatchFieldAttribute).MatchPairs), forall(j, 0, i, unbox(unbox(result, *model.Field).Attr, *model.MatchFieldAttribute).MatchPairs[i].Key == unbox(unbox(result, *model.Field).Attr, *model.MatchFieldAttribute).MatchPairs[j].Key ==> len(self.BinModel.SyntaxErrors) > old(len(self.BinModel.SyntaxErrors))))
 //@   ensures [C06:algorithm-is-token-text] typeis(result, *model.Field) && csText(unbox(result, *model.Field))
 //@   ensures [C12:new-errors-have-lines] newErrorsHaveLines(self.BinModel, old(len(self.BinModel.SyntaxErrors))) && forall(i, 0, old(len(self.BinModel.SyntaxErrors)), self.BinModel.SyntaxErrors[i] == old(self.BinModel.SyntaxErrors[i]))
 //@   ensures isField(result)
 //@   loop 0 invariant len(pairs) >= rangeindex + 1
 //@   loop 0 invariant forall(k, 0, len(pairs), pairs[k].Line >= 1)
 //@   loop 1 invariant forall(k, 0, len(pairs), pairs[k].Line >= 1)
+//@   loop 1 invariant forall(j, 0, rangeindex + 1, haskey(pairsMap, pairs[j].Key))
+//@   loop 1 invariant forall(i, 0, rangeindex + 1, forall(j, 0, i, pairs[i].Key == pairs[j].Key ==> len(self.BinModel.SyntaxErrors) > old(len(self.BinModel.SyntaxErrors))))
 //@   loop 1 invariant newErrorsHaveLines(self.BinModel, old(len(self.BinModel.SyntaxErrors))) && forall(i, 0, old(len(self.BinModel.SyntaxErrors)), self.BinModel.SyntaxErrors[i] == old(self.BinModel.SyntaxErrors[i]))
 
 //@ func (*PacketDslVisitorImpl).VisitMatchPair
